@@ -1173,7 +1173,16 @@ def pretty_cnamedtuple(value, ctx, trailing_comment=None):
         # A failure is not cached: whether repr(value) can be parsed
         # depends on the field values, not only on the class, and a
         # cached failure would change how every later instance prints.
-        fieldnames = resolve_cnamedtuple_fieldnames(value)
+        try:
+            fieldnames = resolve_cnamedtuple_fieldnames(value)
+        except Exception:
+            # The field names belong to the class: when a field value
+            # makes repr(value) unparseable, read them from an instance
+            # holding plain ints, so that this value prints the same
+            # before and after the names have been cached.
+            fieldnames = resolve_cnamedtuple_fieldnames(
+                cls(tuple(range(cls.n_sequence_fields)))
+            )
         _cnamedtuple_fieldnames_by_class[cls] = fieldnames
 
     return pretty_call_alt(
